@@ -1,5 +1,790 @@
-import IofloModel.Model.Remotes
-/-! placeholder while the correspondence is being validated -/
+import IofloModel.Lemmas.Remotes
+/-!
+# C37 — a stack's remote indexes stay mutually consistent
+
+Property theorems.  Model: `Model/Remotes.lean` (transcription of `RemoteStack.addRemote / moveRemote /
+renameRemote / rehaRemote / removeRemote / removeAllRemotes`, `RemoteDevice.__init__`, `Stack.nextUid`).
+-/
 namespace Ioflo.Remotes
-theorem C37_placeholder : (1 : Nat) = 1 := rfl
+open Ioflo.Containers
+set_option linter.unusedSectionVars false
+
+section
+variable {N H : Type} [DecidableEq N] [DecidableEq H]
+
+/-- every entry of an index is filed under the current value of the device's field -/
+def Cur {K : Type} (fld : Dev N H → K) (devs : List (Dev N H)) (m : List (K × Nat)) : Prop :=
+  ∀ p ∈ m, ∃ d, devs[p.2]? = some d ∧ fld d = p.1
+
+/-- the three indexes are mutually consistent -/
+structure Inv (s : St N H) : Prop where
+  nodupU : (dkeys s.uidR).Nodup
+  nodupN : (dkeys s.nameR).Nodup
+  nodupH : (dkeys s.haR).Nodup
+  /-- no remote is indexed twice -/
+  idsNodup : (ids s.uidR).Nodup
+  /-- the three indexes hold the same remotes, in the same iteration order -/
+  sameN : ids s.nameR = ids s.uidR
+  sameH : ids s.haR = ids s.uidR
+  /-- each under its current uid / name / host address -/
+  curU : Cur Dev.uid s.devs s.uidR
+  curN : Cur Dev.name s.devs s.nameR
+  curH : Cur Dev.ha s.devs s.haR
+  /-- no key is the local device's -/
+  locU : s.loc.uid ∉ dkeys s.uidR
+  locN : s.loc.name ∉ dkeys s.nameR
+  locH : s.loc.ha ∉ dkeys s.haR
+
+/-! ### auxiliary facts -/
+
+theorem Cur.append_devs {K : Type} {fld : Dev N H → K} {devs : List (Dev N H)} {m : List (K × Nat)}
+    (h : Cur fld devs m) (d : Dev N H) : Cur fld (devs ++ [d]) m := by
+  intro p hp
+  obtain ⟨d', h1, h2⟩ := h p hp
+  refine ⟨d', ?_, h2⟩
+  have : p.2 < devs.length := (List.getElem?_eq_some_iff.1 h1).1
+  rw [List.getElem?_append_left this]; exact h1
+
+theorem Cur.sub {K : Type} [DecidableEq K] {fld : Dev N H → K} {devs : List (Dev N H)} {m m' : List (K × Nat)}
+    (h : Cur fld devs m) (hs : ∀ p ∈ m', p ∈ m) : Cur fld devs m' := fun p hp => h p (hs p hp)
+
+/-- the index of another field is not affected by an update that leaves that field alone -/
+theorem Cur.set_other {K : Type} {fld : Dev N H → K} {devs : List (Dev N H)} {m : List (K × Nat)}
+    (h : Cur fld devs m) {r : Nat} {d d' : Dev N H} (hd : devs[r]? = some d) (hf : fld d' = fld d) :
+    Cur fld (devs.set r d') m := by
+  intro p hp
+  obtain ⟨x, h1, h2⟩ := h p hp
+  by_cases e : p.2 = r
+  · refine ⟨d', ?_, ?_⟩
+    · rw [e, List.getElem?_set]
+      have : r < devs.length := (List.getElem?_eq_some_iff.1 hd).1
+      simp [this]
+    · rw [e, hd] at h1; cases h1; rw [hf, h2]
+  · exact ⟨x, by rw [List.getElem?_set_ne (fun x => e x.symm)]; exact h1, h2⟩
+
+/-- the re-keyed index of the updated field -/
+theorem Cur.set_rekey {K : Type} [DecidableEq K] {fld : Dev N H → K} {devs : List (Dev N H)}
+    {a b : List (K × Nat)} {old new : K} {r : Nat} {d d' : Dev N H}
+    (h : Cur fld devs (a ++ (old, r) :: b)) (hn : (ids (a ++ (old, r) :: b)).Nodup)
+    (hd : devs[r]? = some d) (hf : fld d' = new) :
+    Cur fld (devs.set r d') (a ++ (new, r) :: b) := by
+  have hr : r < devs.length := (List.getElem?_eq_some_iff.1 hd).1
+  intro p hp
+  simp only [List.mem_append, List.mem_cons] at hp
+  rcases hp with hp | rfl | hp
+  · have hne : p.2 ≠ r := mem_split_ne hn (.inl hp)
+    obtain ⟨x, h1, h2⟩ := h p (by simp [hp])
+    exact ⟨x, by rw [List.getElem?_set_ne (fun x => hne x.symm)]; exact h1, h2⟩
+  · exact ⟨d', by simp [List.getElem?_set, hr], hf⟩
+  · have hne : p.2 ≠ r := mem_split_ne hn (.inr hp)
+    obtain ⟨x, h1, h2⟩ := h p (by simp [hp])
+    exact ⟨x, by rw [List.getElem?_set_ne (fun x => hne x.symm)]; exact h1, h2⟩
+
+theorem dkeys_rekeyed {K : Type} [DecidableEq K] (a b : List (K × Nat)) (old new : K) (r : Nat)
+    (hn : (dkeys (a ++ (old, r) :: b)).Nodup) (hnew : new ∉ dkeys (a ++ (old, r) :: b)) :
+    (dkeys (a ++ (new, r) :: b)).Nodup ∧
+    ∀ k, k ∈ dkeys (a ++ (new, r) :: b) → k = new ∨ k ∈ dkeys (a ++ (old, r) :: b) := by
+  simp only [dkeys_append, dkeys_cons, List.mem_append, List.mem_cons, not_or] at hn hnew ⊢
+  have h1 := List.nodup_append.1 hn
+  have h2 := List.nodup_cons.1 h1.2.1
+  refine ⟨List.nodup_append.2 ⟨h1.1, List.nodup_cons.2 ⟨hnew.2.2, h2.2⟩, ?_⟩, ?_⟩
+  · intro x hx y hy
+    simp only [List.mem_cons] at hy
+    rcases hy with rfl | hy
+    · exact fun e => hnew.1 (e ▸ hx)
+    · exact h1.2.2 x hx y (by simp [hy])
+  · intro k hk
+    rcases hk with hk | rfl | hk
+    · exact .inr (.inl hk)
+    · exact .inl rfl
+    · exact .inr (.inr (.inr hk))
+
+/-- an indexed remote is found under its own current uid, name and host address -/
+theorem Inv.lookup {s : St N H} (h : Inv s) {r : Nat} {d : Dev N H} (hd : s.devs[r]? = some d)
+    (hr : r ∈ ids s.uidR) :
+    dget s.uidR d.uid = some r ∧ dget s.nameR d.name = some r ∧ dget s.haR d.ha = some r := by
+  have aux : ∀ {K : Type} [DecidableEq K] (fld : Dev N H → K) (m : List (K × Nat)),
+      (dkeys m).Nodup → Cur fld s.devs m → r ∈ ids m → dget m (fld d) = some r := by
+    intro K _ fld m hn hc hm
+    obtain ⟨p, hp, rfl⟩ := List.mem_map.1 hm
+    obtain ⟨x, h1, h2⟩ := hc p hp
+    rw [hd] at h1; cases h1
+    rw [h2]; exact dget_of_mem_nodup hn (by cases p; exact hp)
+  exact ⟨aux Dev.uid _ h.nodupU h.curU hr, aux Dev.name _ h.nodupN h.curN (h.sameN ▸ hr),
+    aux Dev.ha _ h.nodupH h.curH (h.sameH ▸ hr)⟩
+
+theorem mem_ids_of_dget {K : Type} [DecidableEq K] {m : List (K × Nat)} {k : K} {r : Nat}
+    (h : dget m k = some r) : r ∈ ids m := List.mem_map.2 ⟨(k, r), mem_of_dget h, rfl⟩
+
+/-! ### removeRemote -/
+
+/-- removing an indexed remote: never a KeyError half way, the remote leaves all three indexes, the
+rest keeps its order -/
+theorem removeOne_ok (dn : Nat → N) (dh : H) {s : St N H} (h : Inv s) {r : Nat} {d : Dev N H}
+    (hd : s.devs[r]? = some d) (hr : r ∈ ids s.uidR) :
+    step.removeOne s r d =
+      ({ s with uidR := ddel s.uidR d.uid, nameR := ddel s.nameR d.name, haR := ddel s.haR d.ha }, .none) ∧
+    Inv ({ s with uidR := ddel s.uidR d.uid, nameR := ddel s.nameR d.name, haR := ddel s.haR d.ha } : St N H) ∧
+    ids (ddel s.uidR d.uid) = (ids s.uidR).erase r := by
+  obtain ⟨l1, l2, l3⟩ := h.lookup hd hr
+  obtain ⟨a1, b1, e1, k1⟩ := split_of_dget l1
+  obtain ⟨a2, b2, e2, k2⟩ := split_of_dget l2
+  obtain ⟨a3, b3, e3, k3⟩ := split_of_dget l3
+  have i1 : ids (ddel s.uidR d.uid) = (ids s.uidR).erase r := by
+    rw [e1]; exact ids_ddel a1 b1 d.uid r k1 (e1 ▸ h.idsNodup)
+  have i2 : ids (ddel s.nameR d.name) = (ids s.nameR).erase r := by
+    rw [e2]; exact ids_ddel a2 b2 d.name r k2 (e2 ▸ h.sameN ▸ h.idsNodup)
+  have i3 : ids (ddel s.haR d.ha) = (ids s.haR).erase r := by
+    rw [e3]; exact ids_ddel a3 b3 d.ha r k3 (e3 ▸ h.sameH ▸ h.idsNodup)
+  refine ⟨?_, ?_, i1⟩
+  · have h2 : dhas s.nameR d.name = true := by simp [dhas, l2]
+    have h3 : dhas s.haR d.ha = true := by simp [dhas, l3]
+    simp [step.removeOne, l1, h2, h3]
+  · exact {
+      nodupU := nodup_dkeys_ddel _ h.nodupU
+      nodupN := nodup_dkeys_ddel _ h.nodupN
+      nodupH := nodup_dkeys_ddel _ h.nodupH
+      idsNodup := by show (ids (ddel s.uidR d.uid)).Nodup; rw [i1]; exact h.idsNodup.erase r
+      sameN := by show ids (ddel s.nameR d.name) = ids (ddel s.uidR d.uid); rw [i1, i2, h.sameN]
+      sameH := by show ids (ddel s.haR d.ha) = ids (ddel s.uidR d.uid); rw [i1, i3, h.sameH]
+      curU := h.curU.sub (fun p hp => mem_ddel hp)
+      curN := h.curN.sub (fun p hp => mem_ddel hp)
+      curH := h.curH.sub (fun p hp => mem_ddel hp)
+      locU := fun hx => h.locU (by rw [dkeys_ddel] at hx; exact List.mem_of_mem_erase hx)
+      locN := fun hx => h.locN (by rw [dkeys_ddel] at hx; exact List.mem_of_mem_erase hx)
+      locH := fun hx => h.locH (by rw [dkeys_ddel] at hx; exact List.mem_of_mem_erase hx) }
+
+/-- removing a remote that is not indexed (or is a different object with the same uid) is rejected -/
+theorem removeOne_rejected {s : St N H} (h : Inv s) {r : Nat} {d : Dev N H} (hr : r ∉ ids s.uidR) :
+    step.removeOne s r d = (s, .rejected) := by
+  unfold step.removeOne
+  cases hg : dget s.uidR d.uid with
+  | none => rfl
+  | some r' =>
+    have : r' ≠ r := fun e => hr (e ▸ mem_ids_of_dget hg)
+    simp [this]
+
+theorem removeList_ok (dn : Nat → N) (dh : H) : ∀ (rs : List Nat) (s : St N H), Inv s → rs.Nodup →
+    (∀ r ∈ rs, r ∈ ids s.uidR) →
+    (step.removeList s rs).2 = .none ∧ Inv (step.removeList s rs).1 ∧
+    ids (step.removeList s rs).1.uidR = (ids s.uidR).filter (· ∉ rs) ∧
+    (step.removeList s rs).1.devs = s.devs ∧ (step.removeList s rs).1.loc = s.loc ∧
+    (step.removeList s rs).1.puid = s.puid
+  | [], s, h, _, _ => ⟨rfl, h, by simp [step.removeList]; exact (List.filter_eq_self.2 (by simp)).symm, rfl, rfl, rfl⟩
+  | r :: rs, s, h, hn, hm => by
+    have hr : r ∈ ids s.uidR := hm r (by simp)
+    obtain ⟨p, hp, hpr⟩ := List.mem_map.1 hr
+    obtain ⟨d, hd, _⟩ := h.curU p hp
+    rw [hpr] at hd
+    obtain ⟨e1, e2, e3⟩ := removeOne_ok dn dh h hd hr
+    simp only [step.removeList, hd, e1]
+    have hn' := List.nodup_cons.1 hn
+    have := removeList_ok dn dh rs _ e2 hn'.2 (by
+      intro r' hr'
+      show r' ∈ ids (ddel s.uidR d.uid)
+      rw [e3]
+      exact (List.mem_erase_of_ne (fun (e : r' = r) => hn'.1 (e ▸ hr'))).2 (hm r' (by simp [hr'])))
+    obtain ⟨t1, t2, t3, t4, t5, t6⟩ := this
+    refine ⟨t1, t2, ?_, t4, t5, t6⟩
+    rw [t3]
+    show (ids (ddel s.uidR d.uid)).filter _ = _
+    rw [e3, List.Nodup.erase_eq_filter h.idsNodup, List.filter_filter]
+    apply List.filter_congr; intro x _
+    by_cases e : x = r <;> simp [e]
+
+/-! ### the invariant is kept by every call -/
+
+/-- **one call**: whatever is called with whatever arguments, accepted or rejected, the three indexes stay
+consistent: same remotes in the same order, each under its current uid/name/ha, no key equal to the local
+device's, no remote twice. -/
+theorem C37_step_keeps_consistent (dn : Nat → N) (dh : H) (s : St N H) (op : Op N H) (h : Inv s) :
+    Inv (step dn dh s op).1 := by
+  cases op with
+  | create uid name ha =>
+    simp only [step]
+    exact { h with curU := h.curU.append_devs _, curN := h.curN.append_devs _, curH := h.curH.append_devs _ }
+  | add r =>
+    simp only [step]
+    cases hd : s.devs[r]? with
+    | none => exact h
+    | some d =>
+      simp only []
+      by_cases c1 : (dhas s.uidR d.uid || d.uid == s.loc.uid) = true
+      · simp only [c1, if_true]; exact h
+      by_cases c2 : (dhas s.nameR d.name || d.name == s.loc.name) = true
+      · simp only [c1, c2, if_true]; exact h
+      by_cases c3 : (dhas s.haR d.ha || d.ha == s.loc.ha) = true
+      · simp only [c1, c2, c3, if_true]; exact h
+      simp only [c1, c2, c3]
+      simp only [Bool.or_eq_true, beq_iff_eq, not_or, dhas_iff] at c1 c2 c3
+      have hr : r ∉ ids s.uidR := fun hr => c1.1 (dget_some_mem (h.lookup hd hr).1)
+      have nd : ∀ {K : Type} [DecidableEq K] (m : List (K × Nat)) (k : K), (dkeys m).Nodup → k ∉ dkeys m →
+          (dkeys (m ++ [(k, r)])).Nodup := by
+        intro K _ m k hn hk
+        simp only [dkeys_append, dkeys_cons, dkeys_nil]
+        exact List.nodup_append.2 ⟨hn, by simp, by simp; exact fun x hx e => hk (e ▸ hx)⟩
+      have cur : ∀ {K : Type} (fld : Dev N H → K) (m : List (K × Nat)), Cur fld s.devs m →
+          Cur fld s.devs (m ++ [(fld d, r)]) := by
+        intro K fld m hc p hp
+        simp only [List.mem_append, List.mem_singleton] at hp
+        rcases hp with hp | rfl
+        · exact hc p hp
+        · exact ⟨d, hd, rfl⟩
+      exact {
+        nodupU := nd _ _ h.nodupU c1.1
+        nodupN := nd _ _ h.nodupN c2.1
+        nodupH := nd _ _ h.nodupH c3.1
+        idsNodup := by
+          show (ids (s.uidR ++ [(d.uid, r)])).Nodup
+          simp only [ids_append, ids_cons, ids_nil]
+          exact List.nodup_append.2 ⟨h.idsNodup, by simp, by simp; exact fun x hx e => hr (e ▸ hx)⟩
+        sameN := by show ids (s.nameR ++ _) = ids (s.uidR ++ _); simp [h.sameN]
+        sameH := by show ids (s.haR ++ _) = ids (s.uidR ++ _); simp [h.sameH]
+        curU := cur Dev.uid _ h.curU
+        curN := cur Dev.name _ h.curN
+        curH := cur Dev.ha _ h.curH
+        locU := by
+          show s.loc.uid ∉ dkeys (s.uidR ++ _)
+          simp only [dkeys_append, dkeys_cons, dkeys_nil, List.mem_append, List.mem_singleton, not_or]
+          exact ⟨h.locU, fun e => c1.2 e.symm⟩
+        locN := by
+          show s.loc.name ∉ dkeys (s.nameR ++ _)
+          simp only [dkeys_append, dkeys_cons, dkeys_nil, List.mem_append, List.mem_singleton, not_or]
+          exact ⟨h.locN, fun e => c2.2 e.symm⟩
+        locH := by
+          show s.loc.ha ∉ dkeys (s.haR ++ _)
+          simp only [dkeys_append, dkeys_cons, dkeys_nil, List.mem_append, List.mem_singleton, not_or]
+          exact ⟨h.locH, fun e => c3.2 e.symm⟩ }
+  | move r new =>
+    simp only [step]
+    cases hd : s.devs[r]? with
+    | none => exact h
+    | some d =>
+      simp only []
+      by_cases c0 : new = d.uid
+      · simp only [c0, if_true]; exact h
+      by_cases c1 : (dhas s.uidR new || new == s.loc.uid) = true
+      · simp only [c0, c1, if_true, if_false]; exact h
+      simp only [c0, c1, if_false]
+      cases hg : dget s.uidR d.uid with
+      | none => exact h
+      | some r' =>
+        by_cases c2 : r' = r
+        · subst c2
+          simp only [ne_eq, not_true_eq_false, if_false]
+          simp only [Bool.or_eq_true, beq_iff_eq, not_or, dhas_iff] at c1
+          obtain ⟨a, b, e, hk⟩ := split_of_dget hg
+          have hkeys := dkeys_rekeyed a b d.uid new r' (e ▸ h.nodupU) (e ▸ c1.1)
+          have hre : rekey s.uidR d.uid new r' = a ++ (new, r') :: b := by rw [e]; exact rekey_split a b _ _ _ hk
+          have hids : ids (a ++ (new, r') :: b) = ids s.uidR := by rw [e]; simp
+          exact {
+            nodupU := by show (dkeys (rekey s.uidR d.uid new r')).Nodup; rw [hre]; exact hkeys.1
+            nodupN := h.nodupN
+            nodupH := h.nodupH
+            idsNodup := by show (ids (rekey s.uidR d.uid new r')).Nodup; rw [hre, hids]; exact h.idsNodup
+            sameN := by show ids s.nameR = ids (rekey s.uidR d.uid new r'); rw [hre, hids]; exact h.sameN
+            sameH := by show ids s.haR = ids (rekey s.uidR d.uid new r'); rw [hre, hids]; exact h.sameH
+            curU := by
+              show Cur Dev.uid (s.devs.set r' _) (rekey s.uidR d.uid new r')
+              rw [hre]
+              exact Cur.set_rekey (e ▸ h.curU) (e ▸ h.idsNodup) hd rfl
+            curN := h.curN.set_other hd rfl
+            curH := h.curH.set_other hd rfl
+            locU := by
+              show s.loc.uid ∉ dkeys (rekey s.uidR d.uid new r')
+              rw [hre]; intro hx
+              rcases hkeys.2 _ hx with hx | hx
+              · exact c1.2 hx.symm
+              · exact h.locU (e ▸ hx)
+            locN := h.locN
+            locH := h.locH }
+        · simp only [ne_eq, c2, not_false_eq_true, if_true]; exact h
+  | rename r new =>
+    simp only [step]
+    cases hd : s.devs[r]? with
+    | none => exact h
+    | some d =>
+      simp only []
+      by_cases c0 : new = d.name
+      · simp only [c0, if_true]; exact h
+      by_cases c1 : (dhas s.nameR new || new == s.loc.name) = true
+      · simp only [c0, c1, if_true, if_false]; exact h
+      simp only [c0, c1, if_false]
+      cases hg : dget s.nameR d.name with
+      | none => exact h
+      | some r' =>
+        by_cases c2 : r' = r
+        · subst c2
+          simp only [ne_eq, not_true_eq_false, if_false]
+          simp only [Bool.or_eq_true, beq_iff_eq, not_or, dhas_iff] at c1
+          obtain ⟨a, b, e, hk⟩ := split_of_dget hg
+          have hkeys := dkeys_rekeyed a b d.name new r' (e ▸ h.nodupN) (e ▸ c1.1)
+          have hre : rekey s.nameR d.name new r' = a ++ (new, r') :: b := by rw [e]; exact rekey_split a b _ _ _ hk
+          have hids : ids (a ++ (new, r') :: b) = ids s.nameR := by rw [e]; simp
+          exact {
+            nodupU := h.nodupU
+            nodupN := by show (dkeys (rekey s.nameR d.name new r')).Nodup; rw [hre]; exact hkeys.1
+            nodupH := h.nodupH
+            idsNodup := h.idsNodup
+            sameN := by show ids (rekey s.nameR d.name new r') = ids s.uidR; rw [hre, hids]; exact h.sameN
+            sameH := h.sameH
+            curU := h.curU.set_other hd rfl
+            curN := by
+              show Cur Dev.name (s.devs.set r' _) (rekey s.nameR d.name new r')
+              rw [hre]
+              exact Cur.set_rekey (e ▸ h.curN) (e ▸ h.sameN ▸ h.idsNodup) hd rfl
+            curH := h.curH.set_other hd rfl
+            locU := h.locU
+            locN := by
+              show s.loc.name ∉ dkeys (rekey s.nameR d.name new r')
+              rw [hre]; intro hx
+              rcases hkeys.2 _ hx with hx | hx
+              · exact c1.2 hx.symm
+              · exact h.locN (e ▸ hx)
+            locH := h.locH }
+        · simp only [ne_eq, c2, not_false_eq_true, if_true]; exact h
+  | reha r new =>
+    simp only [step]
+    cases hd : s.devs[r]? with
+    | none => exact h
+    | some d =>
+      simp only []
+      by_cases c0 : new = d.ha
+      · simp only [c0, if_true]; exact h
+      by_cases c1 : (dhas s.haR new || new == s.loc.ha) = true
+      · simp only [c0, c1, if_true, if_false]; exact h
+      simp only [c0, c1, if_false]
+      cases hg : dget s.haR d.ha with
+      | none => exact h
+      | some r' =>
+        by_cases c2 : r' = r
+        · subst c2
+          simp only [ne_eq, not_true_eq_false, if_false]
+          simp only [Bool.or_eq_true, beq_iff_eq, not_or, dhas_iff] at c1
+          obtain ⟨a, b, e, hk⟩ := split_of_dget hg
+          have hkeys := dkeys_rekeyed a b d.ha new r' (e ▸ h.nodupH) (e ▸ c1.1)
+          have hre : rekey s.haR d.ha new r' = a ++ (new, r') :: b := by rw [e]; exact rekey_split a b _ _ _ hk
+          have hids : ids (a ++ (new, r') :: b) = ids s.haR := by rw [e]; simp
+          exact {
+            nodupU := h.nodupU
+            nodupN := h.nodupN
+            nodupH := by show (dkeys (rekey s.haR d.ha new r')).Nodup; rw [hre]; exact hkeys.1
+            idsNodup := h.idsNodup
+            sameN := h.sameN
+            sameH := by show ids (rekey s.haR d.ha new r') = ids s.uidR; rw [hre, hids]; exact h.sameH
+            curU := h.curU.set_other hd rfl
+            curN := h.curN.set_other hd rfl
+            curH := by
+              show Cur Dev.ha (s.devs.set r' _) (rekey s.haR d.ha new r')
+              rw [hre]
+              exact Cur.set_rekey (e ▸ h.curH) (e ▸ h.sameH ▸ h.idsNodup) hd rfl
+            locU := h.locU
+            locN := h.locN
+            locH := by
+              show s.loc.ha ∉ dkeys (rekey s.haR d.ha new r')
+              rw [hre]; intro hx
+              rcases hkeys.2 _ hx with hx | hx
+              · exact c1.2 hx.symm
+              · exact h.locH (e ▸ hx) }
+        · simp only [ne_eq, c2, not_false_eq_true, if_true]; exact h
+  | remove r =>
+    simp only [step]
+    cases hd : s.devs[r]? with
+    | none => exact h
+    | some d =>
+      simp only []
+      by_cases hr : r ∈ ids s.uidR
+      · rw [(removeOne_ok dn dh h hd hr).1]; exact (removeOne_ok dn dh h hd hr).2.1
+      · rw [removeOne_rejected h hr]; exact h
+  | removeAll =>
+    simp only [step]
+    exact (removeList_ok dn dh _ s h h.idsNodup (fun r hr => hr)).2.1
+
+/-- a new stack is consistent -/
+theorem C37_init_consistent (dn : Nat → N) (dh : H) (puid : Nat) (uid : Option Nat) (name : Option N)
+    (ha : Option H) : Inv (init dn dh puid uid name ha) := by
+  constructor <;> simp [init, dkeys, ids, Cur]
+
+/-- **all histories**: after any sequence of create / add / move / rename / reha / remove / removeAll
+calls on a new stack, accepted or rejected, the indexes are consistent (and so after every prefix). -/
+theorem C37_remote_indexes_consistent (dn : Nat → N) (dh : H) (ops : List (Op N H)) (s : St N H)
+    (h : Inv s) : Inv (run (step dn dh) s ops).1 := by
+  induction ops generalizing s with
+  | nil => exact h
+  | cons op t ih => simp only [run]; exact ih _ (C37_step_keeps_consistent dn dh s op h)
+
+/-- no call on a consistent stack ends in an exception other than the rejection (in particular
+`removeRemote` never fails half way through its three deletions) -/
+theorem C37_never_crashes (dn : Nat → N) (dh : H) (s : St N H) (op : Op N H) (h : Inv s) (e : Err) :
+    (step dn dh s op).2 ≠ .crashed e := by
+  cases op with
+  | create uid name ha => simp [step]
+  | add r =>
+    simp only [step]
+    cases s.devs[r]? with
+    | none => simp
+    | some d =>
+      simp only []
+      by_cases c1 : (dhas s.uidR d.uid || d.uid == s.loc.uid) = true
+      · simp only [c1, if_true]; simp
+      by_cases c2 : (dhas s.nameR d.name || d.name == s.loc.name) = true
+      · simp only [c1, c2, if_true]; simp
+      by_cases c3 : (dhas s.haR d.ha || d.ha == s.loc.ha) = true
+      · simp only [c1, c2, c3, if_true]; simp
+      · simp only [c1, c2, c3]; simp
+  | move r new =>
+    simp only [step]
+    cases s.devs[r]? with
+    | none => simp
+    | some d =>
+      simp only []
+      by_cases c0 : new = d.uid
+      · simp only [c0, if_true]; simp
+      by_cases c1 : (dhas s.uidR new || new == s.loc.uid) = true
+      · simp only [c0, c1, if_true, if_false]; simp
+      simp only [c0, c1, if_false]
+      cases dget s.uidR d.uid with
+      | none => simp
+      | some r' => by_cases c2 : r' = r <;> simp [c2]
+  | rename r new =>
+    simp only [step]
+    cases s.devs[r]? with
+    | none => simp
+    | some d =>
+      simp only []
+      by_cases c0 : new = d.name
+      · simp only [c0, if_true]; simp
+      by_cases c1 : (dhas s.nameR new || new == s.loc.name) = true
+      · simp only [c0, c1, if_true, if_false]; simp
+      simp only [c0, c1, if_false]
+      cases dget s.nameR d.name with
+      | none => simp
+      | some r' => by_cases c2 : r' = r <;> simp [c2]
+  | reha r new =>
+    simp only [step]
+    cases s.devs[r]? with
+    | none => simp
+    | some d =>
+      simp only []
+      by_cases c0 : new = d.ha
+      · simp only [c0, if_true]; simp
+      by_cases c1 : (dhas s.haR new || new == s.loc.ha) = true
+      · simp only [c0, c1, if_true, if_false]; simp
+      simp only [c0, c1, if_false]
+      cases dget s.haR d.ha with
+      | none => simp
+      | some r' => by_cases c2 : r' = r <;> simp [c2]
+  | remove r =>
+    simp only [step]
+    cases hd : s.devs[r]? with
+    | none => simp
+    | some d =>
+      simp only []
+      by_cases hr : r ∈ ids s.uidR
+      · rw [(removeOne_ok dn dh h hd hr).1]; simp
+      · rw [removeOne_rejected h hr]; simp
+  | removeAll =>
+    simp only [step]
+    have t := (removeList_ok dn dh _ s h h.idsNodup (fun r hr => hr)).1
+    simp only [ids] at t
+    rw [t]; simp
+
+/-- **a rejected call changes nothing**: neither the indexes, nor any device, nor the uid counter -/
+theorem C37_rejected_unchanged (dn : Nat → N) (dh : H) (s : St N H) (op : Op N H) (h : Inv s)
+    (hr : (step dn dh s op).2 = .rejected) : (step dn dh s op).1 = s := by
+  revert hr
+  cases op with
+  | create uid name ha => simp [step]
+  | add r =>
+    simp only [step]
+    cases s.devs[r]? with
+    | none => intro _; rfl
+    | some d =>
+      simp only []
+      by_cases c1 : (dhas s.uidR d.uid || d.uid == s.loc.uid) = true
+      · simp only [c1, if_true]; intro _; trivial
+      by_cases c2 : (dhas s.nameR d.name || d.name == s.loc.name) = true
+      · simp only [c1, c2, if_true]; intro _; trivial
+      by_cases c3 : (dhas s.haR d.ha || d.ha == s.loc.ha) = true
+      · simp only [c1, c2, c3, if_true]; intro _; trivial
+      · simp only [c1, c2, c3]; intro hr; simp at hr
+  | move r new =>
+    simp only [step]
+    cases s.devs[r]? with
+    | none => intro _; rfl
+    | some d =>
+      simp only []
+      by_cases c0 : new = d.uid
+      · simp only [c0, if_true]; intro _; trivial
+      by_cases c1 : (dhas s.uidR new || new == s.loc.uid) = true
+      · simp only [c0, c1, if_true, if_false]; intro _; trivial
+      simp only [c0, c1, if_false]
+      cases dget s.uidR d.uid with
+      | none => intro _; rfl
+      | some r' =>
+        by_cases c2 : r' = r
+        · simp [c2]
+        · simp [c2]
+  | rename r new =>
+    simp only [step]
+    cases s.devs[r]? with
+    | none => intro _; rfl
+    | some d =>
+      simp only []
+      by_cases c0 : new = d.name
+      · simp only [c0, if_true]; intro _; trivial
+      by_cases c1 : (dhas s.nameR new || new == s.loc.name) = true
+      · simp only [c0, c1, if_true, if_false]; intro _; trivial
+      simp only [c0, c1, if_false]
+      cases dget s.nameR d.name with
+      | none => intro _; rfl
+      | some r' =>
+        by_cases c2 : r' = r
+        · simp [c2]
+        · simp [c2]
+  | reha r new =>
+    simp only [step]
+    cases s.devs[r]? with
+    | none => intro _; rfl
+    | some d =>
+      simp only []
+      by_cases c0 : new = d.ha
+      · simp only [c0, if_true]; intro _; trivial
+      by_cases c1 : (dhas s.haR new || new == s.loc.ha) = true
+      · simp only [c0, c1, if_true, if_false]; intro _; trivial
+      simp only [c0, c1, if_false]
+      cases dget s.haR d.ha with
+      | none => intro _; rfl
+      | some r' =>
+        by_cases c2 : r' = r
+        · simp [c2]
+        · simp [c2]
+  | remove r =>
+    simp only [step]
+    cases hd : s.devs[r]? with
+    | none => intro _; rfl
+    | some d =>
+      simp only []
+      by_cases hm : r ∈ ids s.uidR
+      · rw [(removeOne_ok dn dh h hd hm).1]; simp
+      · rw [removeOne_rejected h hm]; intro _; trivial
+  | removeAll =>
+    simp only [step]
+    have t := (removeList_ok dn dh _ s h h.idsNodup (fun r hr => hr)).1
+    simp only [ids] at t
+    rw [t]; simp
+
+/-- **moves, renames and re-addressings keep the remote's position**: an accepted `moveRemote` (to a
+different uid) replaces the remote's entry in the uid index in place — same object, same position,
+new key — and touches neither the other two indexes nor any other device; likewise rename / reha. -/
+theorem C37_move_rename_keep_position (dn : Nat → N) (dh : H) (s : St N H) (r : Nat) (d : Dev N H)
+    (hd : s.devs[r]? = some d) :
+    (∀ new, new ≠ d.uid → (step dn dh s (.move r new)).2 = .none →
+      ∃ a b, s.uidR = a ++ (d.uid, r) :: b ∧
+        (step dn dh s (.move r new)).1 = { s with devs := s.devs.set r { d with uid := new },
+                                                  uidR := a ++ (new, r) :: b }) ∧
+    (∀ new, new ≠ d.name → (step dn dh s (.rename r new)).2 = .none →
+      ∃ a b, s.nameR = a ++ (d.name, r) :: b ∧
+        (step dn dh s (.rename r new)).1 = { s with devs := s.devs.set r { d with name := new },
+                                                    nameR := a ++ (new, r) :: b }) ∧
+    (∀ new, new ≠ d.ha → (step dn dh s (.reha r new)).2 = .none →
+      ∃ a b, s.haR = a ++ (d.ha, r) :: b ∧
+        (step dn dh s (.reha r new)).1 = { s with devs := s.devs.set r { d with ha := new },
+                                                  haR := a ++ (new, r) :: b }) := by
+  refine ⟨?_, ?_, ?_⟩
+  · intro new hne hok
+    simp only [step, hd, hne, if_false] at hok ⊢
+    by_cases c1 : (dhas s.uidR new || new == s.loc.uid) = true
+    · simp only [c1, if_true] at hok; simp at hok
+    simp only [c1, if_false] at hok ⊢
+    cases hg : dget s.uidR d.uid with
+    | none => simp [hg] at hok
+    | some r' =>
+      simp only [hg] at hok ⊢
+      by_cases c2 : r' = r
+      · subst c2
+        obtain ⟨a, b, e, hk⟩ := split_of_dget hg
+        refine ⟨a, b, e, ?_⟩
+        simp only [ne_eq, not_true_eq_false, if_false]
+        rw [show rekey s.uidR d.uid new r' = a ++ (new, r') :: b from by rw [e]; exact rekey_split a b _ _ _ hk]
+        simp
+      · simp [c2] at hok
+  · intro new hne hok
+    simp only [step, hd, hne, if_false] at hok ⊢
+    by_cases c1 : (dhas s.nameR new || new == s.loc.name) = true
+    · simp only [c1, if_true] at hok; simp at hok
+    simp only [c1, if_false] at hok ⊢
+    cases hg : dget s.nameR d.name with
+    | none => simp [hg] at hok
+    | some r' =>
+      simp only [hg] at hok ⊢
+      by_cases c2 : r' = r
+      · subst c2
+        obtain ⟨a, b, e, hk⟩ := split_of_dget hg
+        refine ⟨a, b, e, ?_⟩
+        simp only [ne_eq, not_true_eq_false, if_false]
+        rw [show rekey s.nameR d.name new r' = a ++ (new, r') :: b from by rw [e]; exact rekey_split a b _ _ _ hk]
+        simp
+      · simp [c2] at hok
+  · intro new hne hok
+    simp only [step, hd, hne, if_false] at hok ⊢
+    by_cases c1 : (dhas s.haR new || new == s.loc.ha) = true
+    · simp only [c1, if_true] at hok; simp at hok
+    simp only [c1, if_false] at hok ⊢
+    cases hg : dget s.haR d.ha with
+    | none => simp [hg] at hok
+    | some r' =>
+      simp only [hg] at hok ⊢
+      by_cases c2 : r' = r
+      · subst c2
+        obtain ⟨a, b, e, hk⟩ := split_of_dget hg
+        refine ⟨a, b, e, ?_⟩
+        simp only [ne_eq, not_true_eq_false, if_false]
+        rw [show rekey s.haR d.ha new r' = a ++ (new, r') :: b from by rw [e]; exact rekey_split a b _ _ _ hk]
+        simp
+      · simp [c2] at hok
+
+/-- **uid assignment**: a `RemoteDevice` created without a uid gets one that is larger than every uid
+handed out before, is not the uid of any remote in the stack and not the local device's; the counter
+ends at it.  (No index changes.) -/
+theorem C37_create_uid_fresh (dn : Nat → N) (dh : H) (s : St N H) (name : Option N) (ha : Option H) :
+    let s' := (step dn dh s (.create none name ha)).1
+    ∃ d, s'.devs = s.devs ++ [d] ∧ s.puid < d.uid ∧ d.uid ∉ dkeys s.uidR ∧ d.uid ≠ s.loc.uid ∧
+      s'.puid = d.uid ∧ s'.uidR = s.uidR ∧ s'.nameR = s.nameR ∧ s'.haR = s.haR := by
+  have hf := findUid_fresh (usedUids s) (maxUid (usedUids s) + 1) s.puid (by omega)
+  refine ⟨_, rfl, hf.2, ?_, ?_, rfl, rfl, rfl, rfl⟩
+  · intro hm; exact hf.1 (by simp only [usedUids, List.mem_append]; exact .inl hm)
+  · intro e; exact hf.1 (by simp only [usedUids, List.mem_append, List.mem_singleton]; exact .inr e)
+
+/-- an accepted `addRemote` appends the remote to all three indexes under its current keys; an accepted
+`removeRemote` takes exactly that remote out of all three; `removeAllRemotes` empties them -/
+theorem C37_add_remove_effect (dn : Nat → N) (dh : H) (s : St N H) (h : Inv s) (r : Nat) (d : Dev N H)
+    (hd : s.devs[r]? = some d) :
+    ((step dn dh s (.add r)).2 = .none →
+      (step dn dh s (.add r)).1 = { s with uidR := s.uidR ++ [(d.uid, r)], nameR := s.nameR ++ [(d.name, r)],
+                                           haR := s.haR ++ [(d.ha, r)] }) ∧
+    ((step dn dh s (.remove r)).2 = .none →
+      ids (step dn dh s (.remove r)).1.uidR = (ids s.uidR).erase r ∧ r ∈ ids s.uidR) ∧
+    (step dn dh s .removeAll).1 = { s with uidR := [], nameR := [], haR := [] } := by
+  refine ⟨?_, ?_, ?_⟩
+  · intro hok
+    simp only [step, hd] at hok ⊢
+    by_cases c1 : (dhas s.uidR d.uid || d.uid == s.loc.uid) = true
+    · simp only [c1, if_true] at hok; simp at hok
+    by_cases c2 : (dhas s.nameR d.name || d.name == s.loc.name) = true
+    · simp only [c1, c2, if_true] at hok; simp at hok
+    by_cases c3 : (dhas s.haR d.ha || d.ha == s.loc.ha) = true
+    · simp only [c1, c2, c3, if_true] at hok; simp at hok
+    · rw [if_neg c1, if_neg c2, if_neg c3]
+  · intro hok
+    simp only [step, hd] at hok ⊢
+    by_cases hm : r ∈ ids s.uidR
+    · rw [(removeOne_ok dn dh h hd hm).1]; exact ⟨(removeOne_ok dn dh h hd hm).2.2, hm⟩
+    · rw [removeOne_rejected h hm] at hok; simp at hok
+  · simp only [step]
+    obtain ⟨_, t2, t3, t4, t5, t6⟩ := removeList_ok dn dh _ s h h.idsNodup (fun r hr => hr)
+    have e0 : ids (step.removeList s (ids s.uidR)).1.uidR = [] := by
+      rw [t3]; exact List.filter_eq_nil_iff.2 (by intro x hx; simpa using hx)
+    have nil : ∀ {K : Type} (m : List (K × Nat)), ids m = [] → m = [] := by
+      intro K m hm; cases m <;> simp_all [ids]
+    have e1 := nil _ e0
+    have e2 := nil _ (t2.sameN.trans e0)
+    have e3 := nil _ (t2.sameH.trans e0)
+    show (step.removeList s (ids s.uidR)).1 = _
+    have eta : ∀ x : St N H, x = ⟨x.puid, x.loc, x.devs, x.uidR, x.nameR, x.haR⟩ := fun x => rfl
+    rw [eta (step.removeList s (ids s.uidR)).1, t6, t5, t4, e1, e2, e3]
+
+/-- **nothing is rejected without need**: on a consistent stack `addRemote` is accepted exactly when the
+remote's uid, name and host address are all free (not indexed, not the local device's); `removeRemote`
+exactly when that very object is indexed; a move to a different uid exactly when the uid is free and the
+object is indexed (likewise rename / reha: `C37_step_keeps_consistent` is symmetric in the three). -/
+theorem C37_accepted_iff (dn : Nat → N) (dh : H) (s : St N H) (h : Inv s) (r : Nat) (d : Dev N H)
+    (hd : s.devs[r]? = some d) :
+    ((step dn dh s (.add r)).2 = .none ↔
+      (d.uid ∉ dkeys s.uidR ∧ d.uid ≠ s.loc.uid) ∧ (d.name ∉ dkeys s.nameR ∧ d.name ≠ s.loc.name) ∧
+      (d.ha ∉ dkeys s.haR ∧ d.ha ≠ s.loc.ha)) ∧
+    ((step dn dh s (.remove r)).2 = .none ↔ r ∈ ids s.uidR) ∧
+    (∀ new, new ≠ d.uid → ((step dn dh s (.move r new)).2 = .none ↔
+      new ∉ dkeys s.uidR ∧ new ≠ s.loc.uid ∧ r ∈ ids s.uidR)) := by
+  refine ⟨?_, ?_, ?_⟩
+  · simp only [step, hd]
+    by_cases c1 : (dhas s.uidR d.uid || d.uid == s.loc.uid) = true
+    · rw [if_pos c1]
+      simp only [Bool.or_eq_true, beq_iff_eq, dhas_iff] at c1
+      constructor
+      · intro x; cases x
+      · rintro ⟨⟨a, b⟩, _⟩; rcases c1 with c | c <;> contradiction
+    rw [if_neg c1]
+    by_cases c2 : (dhas s.nameR d.name || d.name == s.loc.name) = true
+    · rw [if_pos c2]
+      simp only [Bool.or_eq_true, beq_iff_eq, dhas_iff] at c2
+      constructor
+      · intro x; cases x
+      · rintro ⟨_, ⟨a, b⟩, _⟩; rcases c2 with c | c <;> contradiction
+    rw [if_neg c2]
+    by_cases c3 : (dhas s.haR d.ha || d.ha == s.loc.ha) = true
+    · rw [if_pos c3]
+      simp only [Bool.or_eq_true, beq_iff_eq, dhas_iff] at c3
+      constructor
+      · intro x; cases x
+      · rintro ⟨_, _, ⟨a, b⟩⟩; rcases c3 with c | c <;> contradiction
+    rw [if_neg c3]
+    simp only [Bool.or_eq_true, beq_iff_eq, dhas_iff, not_or] at c1 c2 c3
+    exact ⟨fun _ => ⟨c1, c2, c3⟩, fun _ => rfl⟩
+  · simp only [step, hd]
+    by_cases hm : r ∈ ids s.uidR
+    · rw [(removeOne_ok dn dh h hd hm).1]; simp [hm]
+    · rw [removeOne_rejected h hm]; simp [hm]
+  · intro new hne
+    simp only [step, hd, hne, if_false]
+    by_cases c1 : (dhas s.uidR new || new == s.loc.uid) = true
+    · rw [if_pos c1]
+      simp only [Bool.or_eq_true, beq_iff_eq, dhas_iff] at c1
+      constructor
+      · intro x; cases x
+      · rintro ⟨a, b, _⟩; rcases c1 with c | c <;> contradiction
+    rw [if_neg c1]
+    simp only [Bool.or_eq_true, beq_iff_eq, dhas_iff, not_or] at c1
+    cases hg : dget s.uidR d.uid with
+    | none =>
+      simp only []
+      constructor
+      · intro x; cases x
+      · rintro ⟨_, _, hm⟩; rw [(h.lookup hd hm).1] at hg; cases hg
+    | some r' =>
+      simp only []
+      by_cases c2 : r' = r
+      · subst c2
+        simp only [ne_eq, not_true_eq_false, if_false, true_iff]
+        exact ⟨c1.1, c1.2, mem_ids_of_dget hg⟩
+      · simp only [ne_eq, c2, not_false_eq_true, if_true]
+        constructor
+        · intro x; cases x
+        · rintro ⟨_, _, hm⟩
+          rw [(h.lookup hd hm).1] at hg; cases hg; exact absurd rfl c2
+
+end
+
+/-! non-vacuity: the sequence of the unit test, then a second remote, collisions and removal -/
+section Examples
+def dnE (u : Nat) : Nat := 100 + u
+def s0 : St Nat Nat := init dnE 0 0 none none none
+def opsE : List (Op Nat Nat) :=
+  [.create none none (some 7), .add 0, .add 0, .move 0 3, .rename 0 55, .reha 0 8,
+   .create none none (some 9), .create (some 3) (some 1) (some 2), .add 1, .add 2, .move 1 3, .move 1 7,
+   .remove 2, .reha 1 0, .remove 0]
+example : Inv s0 := C37_init_consistent _ _ _ _ _ _
+example : (run (step dnE 0) s0 opsE).2 =
+    [.ref 0, .none, .rejected, .none, .none, .none, .ref 1, .ref 2, .none, .rejected, .rejected, .none,
+     .rejected, .rejected, .none] := by decide
+example : (run (step dnE 0) s0 (opsE.take 12)).1 =
+    { puid := 4, loc := ⟨1, 101, 0⟩, devs := [⟨3, 55, 8⟩, ⟨7, 104, 9⟩, ⟨3, 1, 2⟩],
+      uidR := [(3, 0), (7, 1)], nameR := [(55, 0), (104, 1)], haR := [(8, 0), (9, 1)] } := by decide
+/-- the uid loop skips uids in use: puid 1, remotes at 2 and 3 (moved there) → the next device gets 4 -/
+example : ((run (step dnE 0) s0 [.create none none (some 7), .add 0, .create none none (some 8), .add 1,
+    .create none none (some 9)]).1.devs.map Dev.uid) = [2, 3, 4] := by decide
+example : ((run (step dnE 0) s0 [.create (some 2) none (some 7), .add 0, .create (some 3) none (some 8), .add 1,
+    .create none none (some 9)]).1.devs.map Dev.uid) = [2, 3, 4] := by decide
+end Examples
+
 end Ioflo.Remotes
